@@ -9,5 +9,15 @@ Definition mon_pool : monitor_t := fun suite i o =>
   else if name_is suite "history.probe" then
     match vl o with [a; b] => Some (V_eqb a b) | _ => Some false end
   else if name_is suite "concurrent.solo" then
-    match vl o with [a; b] => Some (V_eqb a b) | _ => Some false end
+    match vl o with
+    | [a; b] =>
+        if vz (vnth 0 i) <? 0 then
+          (* full-duplex stream with a request-side fault: one head, no panic, well-formed framing,
+             and a non-OK outcome exactly when there was a fault; the same both times *)
+          let faulty := negb (bytes_eqb (vs (vnth 2 i)) (s2b "none")) in
+          let ok1 (x : V) := (vz (vnth 0 x) =? 1) && Bool.eqb (vb (vnth 1 x)) faulty && negb (vb (vnth 2 x)) && vb (vnth 3 x) in
+          Some (V_eqb a b && ok1 a)
+        else Some (V_eqb a b)
+    | _ => Some false
+    end
   else None.
